@@ -79,6 +79,13 @@ def judge(ctx, kind, uname, got, values, where):
             return
     else:
         ok = bool(got == exp) or bool(np.isnan(got) and np.isnan(exp))
+        if not ok and values.dtype.kind == "f" and values.dtype.itemsize < 8:
+            # the summary may have been computed before the data were rounded to the
+            # (single-precision) storage type: equal within that type's rounding
+            with np.errstate(all="ignore"):
+                ok = bool(values.dtype.type(got) == exp)
+            if ok:
+                ctx.count("extremum_equal_after_rounding_to_storage_dtype")
     ctx.check(f"c20.summary[{kind}]", ok,
               lambda: dict(where, stat=uname, reported=repr(got), expected=repr(exp),
                            n=int(values.size), n_nan=int(np.isnan(values.astype(float)).sum())),
